@@ -112,6 +112,9 @@ def scenarios(thorough):
         for w, tag in ((["--start", "0"], "start0"), (["--start", str(L + 1)], "start>len"), (["--end", "0"], "end0"),
                        (["--end", str(L + 1)], "end>len"), (["--start", "9", "--end", "8"], "start>end")):
             add("bad-window", cmd, args=CMDS[cmd] + w, tag=tag)
+            if cmd == "toma":       # with --pad the window is applied by a different code path
+                add("bad-window", cmd, args=CMDS[cmd] + w + ["--pad"], tag=tag + "+pad")
+                add("bad-window", cmd, args=CMDS[cmd] + w + ["--pad", "-t", "3", "-w", "10"], tag=tag + "+pad+wrap")
     add("annotation-suffix", "variants", args=["variants", "--msa", "@m.fa", "-a", "@a.txt"])
     add("annotation-suffix", "samvar", args=["sam", "variants", "-s", "@in.sam", "-r", "@ref.fa", "-a", "@a.txt"])
     add("no-size-or-dist", "toprank", args=[a for a in tr if a not in ("--size-total", "4")])
